@@ -425,6 +425,55 @@ func c17TLS(w *World, r *Report) {
 	if len(strong) == 0 {
 		ob.Violate("clientauth-never-required", sc.Pos(), "ServerConfig never requires and verifies client certificates")
 	}
+	// the pool handed out for the CA files is never nil: a nil ClientCAs makes crypto/tls verify
+	// client certificates against the host's system roots
+	if np := w.Func("security", "NewCertPool"); np != nil {
+		ei := errorResultIndex(np)
+		eachInstr(np, func(in ssa.Instruction) {
+			ret, ok := in.(*ssa.Return)
+			if !ok || isErrorReturn(ret) || len(ret.Results) < 2 || ei != 1 {
+				return
+			}
+			v := retVal(ret, 0)
+			ob.Site(ret.Pos(), "NewCertPool returns "+Expr(v))
+			var nonNil func(v ssa.Value, d int) bool
+			nonNil = func(v ssa.Value, d int) bool {
+				if d > 6 {
+					return false
+				}
+				switch x := v.(type) {
+				case *ssa.Call:
+					return CalleeName(&x.Call) == "crypto/x509.NewCertPool" || freshNonNil(x, 0)
+				case *ssa.Phi:
+					for _, e := range x.Edges {
+						if e != ssa.Value(x) && !nonNil(e, d+1) {
+							return false
+						}
+					}
+					return true
+				case *ssa.UnOp:
+					if al, ok := x.X.(*ssa.Alloc); ok && x.Op == token.MUL && al.Parent() != nil {
+						sts := storesTo(al.Parent(), al)
+						if len(sts) == 0 {
+							return false
+						}
+						for _, st := range sts {
+							if !nonNil(st.Val, d+1) {
+								return false
+							}
+						}
+						return true
+					}
+				}
+				return freshNonNil(v, 0)
+			}
+			if !nonNil(v, 0) {
+				ob.Violate("ca-pool-may-be-nil", ret.Pos(), "NewCertPool can succeed with a pool that is not provably non-nil (`"+Expr(v)+"`): with a nil ClientCAs the server verifies client certificates against the system roots - any certificate of a public CA is accepted")
+			}
+		})
+	} else {
+		ob.Violate("ca-pool-anchor", sc.Pos(), "security.NewCertPool not found")
+	}
 	// on every path where TrustedCAFile != "" or ClientCertAuth holds, a success return must be preceded by the strong store
 	// and no weaker store may follow the strong one
 	for _, s := range strong {
@@ -504,10 +553,47 @@ func c17TLS(w *World, r *Report) {
 			}
 		}
 	}
+	// a check may also be a method used as a value (t.verifyCN): the bound-method wrapper stands
+	// for the method it calls
+	boundOf := map[*ssa.Function]*ssa.Function{} // wrapper → method
+	for _, f := range scope {
+		eachInstr(f, func(in ssa.Instruction) {
+			mc, ok := in.(*ssa.MakeClosure)
+			if !ok {
+				return
+			}
+			wf, ok := mc.Fn.(*ssa.Function)
+			if !ok || !strings.HasPrefix(wf.Synthetic, "bound method wrapper") {
+				return
+			}
+			var target *ssa.Function
+			eachInstr(wf, func(x ssa.Instruction) {
+				if c := callOf(x); c != nil {
+					if t, ok := c.Value.(*ssa.Function); ok && t.Blocks != nil && inModule(t) {
+						target = t
+					}
+				}
+			})
+			if target == nil || target.Signature.Params().Len() != 1 || !typeIs(target.Signature.Params().At(0).Type(), "crypto/x509", "Certificate") {
+				return
+			}
+			boundOf[wf] = target
+			dup := false
+			for _, g := range perCert {
+				dup = dup || g == target
+			}
+			if !dup {
+				perCert = append(perCert, target)
+			}
+		})
+	}
 	isPerCert := func(v ssa.Value) bool {
 		mc, ok := v.(*ssa.MakeClosure)
 		if !ok {
 			return false
+		}
+		if wf, ok := mc.Fn.(*ssa.Function); ok && boundOf[wf] != nil {
+			return true
 		}
 		for _, f := range perCert {
 			if mc.Fn == ssa.Value(f) {
@@ -542,6 +628,7 @@ func c17TLS(w *World, r *Report) {
 		var guardIf *ssa.If
 		var guardVar *ssa.Alloc
 		var guardCall *ssa.Call
+		var guardPhi *ssa.Phi
 		for _, b := range bc.Blocks {
 			iff, ok := b.Instrs[len(b.Instrs)-1].(*ssa.If)
 			if !ok {
@@ -575,6 +662,10 @@ func c17TLS(w *World, r *Report) {
 			}
 			if call, ok := v.(*ssa.Call); ok && StaticCallee(&call.Call) != nil {
 				guardIf, guardCall = iff, call
+			}
+			if phi, ok := bo.X.(*ssa.Phi); ok {
+				// a value merged from the configuration branches (a helper inlined by the normaliser)
+				guardIf, guardPhi = iff, phi
 			}
 		}
 		if guardIf != nil {
@@ -629,6 +720,42 @@ func c17TLS(w *World, r *Report) {
 									if !isPerCert(rv) {
 										ob.Violate("peer-verification-skipped/"+fld, blockPos(b.Succs[k]), "with "+fld+" configured the value tested before installing the peer verification can be `"+Expr(rv)+"`, not a certificate check")
 										break
+									}
+								}
+							case guardIf != nil && guardPhi != nil && g == bc:
+								// on every path from this edge to the test the merged value is one of
+								// the per-certificate checks
+								n := 0
+								for _, path := range enumPathsTo(b.Succs[k], guardIf.Block(), 4000) {
+									if !pathFeasible(path) {
+										continue
+									}
+									n++
+									rv := resolveAlong(guardPhi, path, len(path)-1)
+									for d := 0; d < 4; d++ {
+										u, ok := rv.(*ssa.UnOp)
+										if !ok {
+											break
+										}
+										al, ok := u.X.(*ssa.Alloc)
+										if !ok {
+											break
+										}
+										sts := storesTo(bc, al)
+										if len(sts) != 1 {
+											break
+										}
+										rv = resolveAlong(sts[0].Val, path, len(path)-1)
+									}
+									if !isPerCert(rv) {
+										ob.Violate("peer-verification-skipped/"+fld, blockPos(b.Succs[k]), "with "+fld+" configured the value tested before installing the peer verification can be `"+Expr(rv)+"`, not a certificate check")
+										break
+									}
+								}
+								if n == 0 {
+									// the edge only leads to error returns (the two options exclude each other)
+									if p := (&Walk{Target: isSuccessReturn}).Find(Loc{b.Succs[k], 0}); p != nil {
+										ob.Violate("peer-verification-skipped/"+fld, blockPos(b.Succs[k]), "with "+fld+" configured baseConfig can succeed without reaching the test that installs the peer verification")
 									}
 								}
 							case guardIf != nil && guardVar != nil && g == bc:
